@@ -10,5 +10,8 @@ pub use _trait::*;
 
 mod util;
 
+#[cfg(feature = "verif_hooks")]
+pub mod verif;
+
 #[cfg(test)]
 mod test;
